@@ -25,7 +25,7 @@ m = {"version": 1,
      "hooks": {"guard": "PYQMC_VERIF", "enable": "no source hooks are needed: the harness instruments from outside (monkey-patched numpy.random, h5py, stub wave functions); ./check exports PYQMC_VERIF=1 for uniformity",
                "baseline_off_cmd": BASE, "source_commits": [], "add_only": True},
      "engines": [{"name": "coq-model+correspondence", "path": "/verif/check", "serves_properties": [c["property_id"] for c in checks],
-                  "kind_free_text": "Coq 8.16.1 models and theorems (coq/), Print Assumptions collected per theorem; hand-written models tied to /repo by running vm_compute on generated cases.v files against the implementation on the same inputs; translator-generated models re-generated from /repo on every run"}],
+                  "kind_free_text": "Coq 8.16.1 models and theorems (coq/, full .vo build; property theorems in Props*.v with Print Assumptions collected per theorem on every run); translator-generated models (coq/gen/{Kernels,Func3d,Keys,Energy,Ewald2d,Sph}_Gen.v) are regenerated from /repo's Python AST on every run and their theorems re-checked; hand-written executable models are tied to /repo by evaluating them with vm_compute inside coqc on the inputs the real functions were run on; independent implementation-level oracles search for concrete failing inputs"}],
      "checks": checks, "not_applicable": na,
      "notes": "See DESIGN.md. known_findings.json lists fixed/known defects. All checks rebuild from /repo's working tree (python imports /repo directly; Coq models regenerated/re-evaluated per run)."}
 json.dump(m, open(os.path.join(V, "MANIFEST.json"), "w"), indent=1)
